@@ -246,4 +246,130 @@ theorem simd_indices_cover (n : Nat) : ∀ x, x < n → x ∈ simdIdx n := by
   · right; omega
 example : simdIdx 7 = [0, 1, 2, 3, 4, 5, 6] ∧ simdIdx 3 = [0, 1, 2] := by decide
 
+/-! ## prepared / big layouts -/
+
+/-- VecZnxBig / VecZnxDft / CnvPVecL / CnvPVecR of either back end: allocation establishes `Inv`, hence every
+`at(i,j)` and `raw()` view is inside the buffer (`at_in_bounds`, `raw_in_bounds` hold for any scalar width) -/
+theorem allocPrep_views_in_bounds (n cols size w i j a b : Nat) (h : atRange (allocPrep n cols size w) i j = .ok (a, b)) :
+    b ≤ (allocPrep n cols size w).len ∧ (rawRange (allocPrep n cols size w)).2 ≤ (allocPrep n cols size w).len :=
+  ⟨(at_in_bounds _ i j a b (alloc_inv _ _ _ _) h).2, raw_in_bounds _ (alloc_inv _ _ _ _)⟩
+example : okVal (atRange (allocPrep 4 2 3 (wPrep .ntt120)) 1 2) = some (640, 768) ∧ (allocPrep 4 2 3 (wPrep .ntt120)).len = 768 := by decide
+
+/-- SvpPPol (`size() = 1`) -/
+theorem allocSvp_views_in_bounds (n cols w i a b : Nat) (h : atRange (allocSvp n cols w) i 0 = .ok (a, b)) :
+    b ≤ (allocSvp n cols w).len :=
+  (at_in_bounds _ i 0 a b (alloc_inv _ _ _ _) h).2
+example : okVal (atRange (allocSvp 8 2 (wPrep .fft64)) 1 0) = some (64, 128) := by decide
+
+/-- `into_big` after the compaction: the `VecZnxBig` view over the `VecZnxDft` buffer satisfies `Inv`
+whenever `size_of::<ScalarBig>() ≤ size_of::<ScalarPrep>()` (both back ends) -/
+theorem intoBig_inv (n cols size : Nat) (be : Be) : (intoBig (allocPrep n cols size (wPrep be)) be).Inv := by
+  refine ⟨Nat.le_refl _, ?_⟩
+  have h := (alloc_inv n cols size (wPrep be)).2
+  have hw : wBig be ≤ wPrep be := by cases be <;> decide
+  exact Nat.le_trans (Nat.mul_le_mul_left _ hw) h
+example : (intoBig (allocPrep 4 2 3 (wPrep .ntt120)) .ntt120) = ⟨4, 2, 3, 3, 768, 16⟩ := by decide
+
+/-- VmpPMat: the trait's `at(i,j)` is inside the buffer when the matrix has at least one row and one output
+column; `raw()` always is -/
+theorem vmp_at_in_bounds (n rows colsIn colsOut size w i j a b : Nat) (hr : 0 < rows) (hc : 0 < colsOut)
+    (h : vmpAtRange (allocVmp n rows colsIn colsOut size w) i j = .ok (a, b)) : b ≤ (allocVmp n rows colsIn colsOut size w).len := by
+  unfold vmpAtRange allocVmp at h
+  simp only at h
+  split at h; · cases h
+  split at h; · cases h
+  rename_i h1 h2
+  have hi' : i < colsIn := Decidable.of_not_not h1
+  have hj' : j < size := Decidable.of_not_not h2
+  cases h
+  simp only [allocVmp]
+  refine Nat.le_trans ?_ (pad64_ge _)
+  have e : n * (j * colsIn + i) * w + n * w = n * (j * colsIn + i + 1) * w := by
+    rw [show n * (j * colsIn + i + 1) = n * (j * colsIn + i) + n from Nat.mul_succ _ _, Nat.add_mul]
+  rw [e]
+  have k1 : j * colsIn + i + 1 ≤ colsIn * size := by
+    have : (j + 1) * colsIn ≤ size * colsIn := Nat.mul_le_mul_right _ (by omega)
+    rw [Nat.add_mul, Nat.one_mul] at this
+    rw [Nat.mul_comm colsIn size]; omega
+  have k2 : colsIn * size ≤ rows * colsIn * colsOut * size := by
+    calc colsIn * size = 1 * colsIn * 1 * size := by simp
+      _ ≤ rows * colsIn * colsOut * size :=
+        Nat.mul_le_mul_right _ (Nat.mul_le_mul (Nat.mul_le_mul_right _ hr) hc)
+  calc n * (j * colsIn + i + 1) * w ≤ n * (rows * colsIn * colsOut * size) * w :=
+        Nat.mul_le_mul_right _ (Nat.mul_le_mul_left _ (Nat.le_trans k1 k2))
+    _ = n * rows * colsIn * colsOut * size * w := by simp only [Nat.mul_assoc]
+example : okVal (vmpAtRange (allocVmp 4 2 2 3 2 32) 1 1) = some (384, 512) ∧ (allocVmp 4 2 2 3 2 32).len = 3072 := by decide
+
+theorem vmp_raw_in_bounds (n rows colsIn colsOut size w : Nat) :
+    (vmpRawRange (allocVmp n rows colsIn colsOut size w)).2 ≤ (allocVmp n rows colsIn colsOut size w).len := by
+  simp only [vmpRawRange, allocVmp]
+  refine Nat.le_trans (Nat.le_of_eq ?_) (pad64_ge _)
+  simp only [Nat.mul_assoc, Nat.mul_comm size colsOut, Nat.mul_left_comm size colsOut]
+example : (vmpRawRange (allocVmp 4 2 2 3 2 32)).2 = 3072 := by decide
+
+/-- a matrix with zero rows has an empty buffer, yet the trait accessor `at(0,0)` passes both assertions:
+safe code (`ZnxView::at`) obtains a slice over bytes the object does not own (same for `MatZnx` through the trait) -/
+theorem vmp_at_zero_rows_counterexample :
+    ¬ (∀ n rows colsIn colsOut size w i j a b, okVal (vmpAtRange (allocVmp n rows colsIn colsOut size w) i j) = some (a, b) →
+        b ≤ (allocVmp n rows colsIn colsOut size w).len) := by
+  intro h
+  have := h 4 0 1 1 1 8 0 0 0 32 (by decide)
+  revert this
+  decide
+
+/-! ## NTT120 in-place compaction of `vec_znx_idft_apply_consume` -/
+
+theorem mul_succ_le {n k k' : Nat} (h : k < k') : n * k + n ≤ n * k' := by
+  have : n * (k + 1) ≤ n * k' := Nat.mul_le_mul_left _ h
+  rwa [Nat.mul_succ] at this
+
+/-- **no source word is overwritten before it is read**: the write of step `(k,c)` ends at or before the start of the
+read of every later step `(k',c')` (later coefficient of the same block, or any coefficient of a later block) -/
+theorem compact_no_clobber (n k c k' c' : Nat) (hc : c < n) (hlt : stepBefore k c k' c') :
+    (compactWrite n k c).2 ≤ (compactRead n k' c').1 := by
+  simp only [compactWrite, compactRead]
+  rcases hlt with h | ⟨rfl, h⟩
+  · have h1 := mul_succ_le (n := n) h
+    have e1 : 2 * n * k = 2 * (n * k) := Nat.mul_assoc _ _ _
+    have e2 : 4 * n * k' = 4 * (n * k') := Nat.mul_assoc _ _ _
+    rw [e1, e2]; omega
+  · have e1 : 2 * n * k = 2 * (n * k) := Nat.mul_assoc _ _ _
+    have e2 : 4 * n * k = 4 * (n * k) := Nat.mul_assoc _ _ _
+    rw [e1, e2]; omega
+example : stepBefore 0 3 1 0 ∧ (compactWrite 4 0 3).2 = 8 ∧ (compactRead 4 1 0).1 = 16 := by
+  refine ⟨Or.inl (by decide), by decide, by decide⟩
+
+/-- the block-level form: the destination of block `k` ends before the source of block `k+1` starts
+(`16n(k+1) ≤ 32n(k+1)` in bytes), and for `k ≥ 1` before its own source starts (`16n(k+1) ≤ 32nk`); block 0 is
+read-before-write coefficient by coefficient (`compact_no_clobber` with `k' = k`) -/
+theorem compact_block_order (n k : Nat) (hk : 1 ≤ k) : 2 * n * k + 2 * n ≤ 4 * n * k ∧ 2 * n * k + 2 * n ≤ (compactBlock n (k + 1)).1 := by
+  simp only [compactBlock]
+  have h1 : n ≤ n * k := Nat.le_mul_of_pos_right _ hk
+  have e1 : 2 * n * k = 2 * (n * k) := Nat.mul_assoc _ _ _
+  have e2 : 4 * n * k = 4 * (n * k) := Nat.mul_assoc _ _ _
+  have e3 : 4 * n * (k + 1) = 4 * (n * k) + 4 * n := by rw [Nat.mul_succ, Nat.mul_assoc]
+  rw [e1, e2, e3]; omega
+example : (2 * 4 * 1 + 2 * 4 ≤ 4 * 4 * 1) := by decide
+
+/-- the in-place `intt_ref` of block `k` (words `[4nk, 4nk+4n)`) does not touch any value already written
+(destinations of blocks `< k` end at `2nk`) -/
+theorem compact_intt_disjoint (n k k0 c : Nat) (hk : k0 < k) (hc : c < n) : (compactWrite n k0 c).2 ≤ (compactBlock n k).1 := by
+  simp only [compactWrite, compactBlock]
+  have h1 := mul_succ_le (n := n) hk
+  have e1 : 2 * n * k0 = 2 * (n * k0) := Nat.mul_assoc _ _ _
+  have e2 : 4 * n * k = 4 * (n * k) := Nat.mul_assoc _ _ _
+  rw [e1, e2]; omega
+example : (compactWrite 4 0 3).2 ≤ (compactBlock 4 1).1 := by decide
+
+/-- every access of the compaction is inside the `VecZnxDft` buffer (`4·n·cols·size` words of 8 bytes) -/
+theorem compact_in_bounds (n nBlocks k c : Nat) (hk : k < nBlocks) (hc : c < n) :
+    (compactRead n k c).2 ≤ 4 * n * nBlocks ∧ (compactWrite n k c).2 ≤ 4 * n * nBlocks := by
+  simp only [compactRead, compactWrite]
+  have h1 := mul_succ_le (n := n) hk
+  have e1 : 2 * n * k = 2 * (n * k) := Nat.mul_assoc _ _ _
+  have e2 : 4 * n * k = 4 * (n * k) := Nat.mul_assoc _ _ _
+  have e3 : 4 * n * nBlocks = 4 * (n * nBlocks) := Nat.mul_assoc _ _ _
+  rw [e1, e2, e3]; omega
+example : traceClobbers (compactTrace 4 3) = false ∧ (compactTrace 4 3).length = 24 := by decide
+
 end C17
